@@ -40,10 +40,6 @@ def check(run, repo):
                      'digits', 'float rounding in the balance comparison']
     m = repo.module(RX)
     ci = repo.cls(RX + '.Reaction')
-    for f_ in ('_parse_reaction_state', '_parse_reaction', '_write_reaction_state', '_count_elements'):
-        if f_ not in m.functions:
-            raise AnchorError('%s.%s not found' % (RX, f_))
-        run.fn('%s.%s' % (RX, f_))
     run.fn(RX + '.Reaction.to_string', RX + '.Reaction.from_string', RX + '.Reaction.check_element_balance',
            'pmutt.parse_formula')
     owner_ts, fn_ts = repo.find_method(ci, 'to_string')
@@ -127,7 +123,6 @@ def check(run, repo):
     run.floor('print/parse cases', n, 60)
 
     # ---- parsing: repeated species, omitted/decimal/integer coefficients, blanks, unknown species ----------
-    pfn = m.functions['_parse_reaction']
     I = Interp(repo, max_depth=12)
     sp = named_species(I, [('A', 2), ('B', 3), ('TS', 4)])
     kA, kB, kT = list(sp)
@@ -140,22 +135,28 @@ def check(run, repo):
         ('integer written as decimal', '2.0' + A + '=' + B, ([kA], [2], [kB], [1], None, None)),
     ]
     for label, s_, want in cases:
-        r = I.call_function(m, pfn, [], {'reaction_str': s_, 'species_delimiter': '+', 'reaction_delimiter': '='})
-        ok = isinstance(r, ListV) and len(r) == 6
+        # through the public constructor: the parsed species are the objects of the dictionary
+        r = I.call_function(owner_fs.module, fn_fs, [], {'reaction_str': s_, 'species': DictV(dict(sp)),
+                                                         'species_delimiter': '+', 'reaction_delimiter': '='},
+                            self_obj=ci, owner=owner_fs)
+        ok = isinstance(r, Obj)
         if ok:
-            for got, w in zip(r.items, want):
+            got6 = [r.attrs.get(k_) for k_ in ('_reactants', '_reactants_stoich', '_products', '_products_stoich',
+                                                '_transition_state', '_transition_state_stoich')]
+            for got, w in zip(got6, want):
                 if w is None:
                     ok = ok and got is None
                 elif isinstance(got, ListV) and len(got) == len(w):
                     for g, x in zip(got.items, w):
-                        g = I.plain(g)
-                        ok = ok and ((isinstance(x, str) and g == x) or
-                                     (not isinstance(x, str) and isinstance(g, Rat) and g.eq(C(x))))
+                        if isinstance(x, str):
+                            ok = ok and g is sp[x]
+                        else:
+                            ok = ok and isinstance(g, Rat) and g.eq(C(x))
                 else:
                     ok = False
-        run.check(ok, 'REF.parse', 'reaction._parse_reaction', label,
-                  '%s: %s parses to %s' % (label, show(s_, 120), show(r, 160)), m, pfn,
-                  sample='%s: %s' % (label, show(s_, 100)))
+        run.check(ok, 'REF.parse', 'Reaction.from_string', label,
+                  '%s: %s parses to %s' % (label, show(s_, 120), show(r.attrs if isinstance(r, Obj) else r, 200)),
+                  owner_fs.module, fn_fs, sample='%s: %s' % (label, show(s_, 100)))
     # unknown species -> KeyError
     r = I.call_function(owner_fs.module, fn_fs, [], {'reaction_str': A + '=' + B, 'species': DictV({kA: sp[kA]})},
                         self_obj=ci, owner=owner_fs)
@@ -250,7 +251,7 @@ def formulas(run, repo):
 
 R_ = 'pmutt/reaction/__init__.py'
 MUTANTS = [
-    {'name': 'repeated species overwrite instead of sum', 'expect': ('REF.parse', '_parse_reaction'),
+    {'name': 'repeated species overwrite instead of sum', 'expect': ('REF.parse', 'from_string'),
      'edits': [(R_, '            stoichiometry[i] += specie_stoich', '            stoichiometry[i] = specie_stoich')]},
     {'name': 'products parsed from the middle state', 'expect': ('', 'from_string'),
      'edits': [(R_, '    products_state = reaction_states[-1]', '    products_state = reaction_states[1]')]},
